@@ -609,12 +609,19 @@ func (g *gen) opnameFamily() {
 			g.rawCase("opname", fmt.Sprintf("%s=%q", label, nm), m.Bytes(), "bytes", true, "")
 		}
 		konst := mb.Node{Op: "Constant", Out: []string{"c"}, Attrs: []mb.Attr{mb.AFloats("value_floats", 1, 2)}}
-		ctx("same-output-as-constant", func(m *mb.Model) {
-			m.Nodes = append([]mb.Node{konst, {Op: nm, In: []string{"x"}, Out: []string{"c"}}}, m.Nodes...)
-		})
-		ctx("same-output-as-constant-before-it", func(m *mb.Model) {
-			m.Nodes = append([]mb.Node{{Op: nm, In: []string{"x"}, Out: []string{"c"}}, konst}, m.Nodes...)
-		})
+		for ki, ka := range []mb.Attr{mb.AFloats("value_floats", 1, 2), mb.AT("value", &mb.Init{V: f32([]int{2}, 1, 2), Raw: true}), mb.AT("value", &mb.Init{V: f32([]int{2}, 1, 2), Raw: false}),
+			mb.AF("value_float", 1.5), mb.AI("value_int", 3), mb.AInts("value_ints", 1, 2)} {
+			kn := mb.Node{Op: "Constant", Out: []string{"c"}, Attrs: []mb.Attr{ka}}
+			ctx(fmt.Sprintf("same-output-as-constant(kind %d)", ki), func(m *mb.Model) {
+				m.Nodes = append([]mb.Node{kn, {Op: nm, In: []string{"x"}, Out: []string{"c"}}}, m.Nodes...)
+			})
+			ctx(fmt.Sprintf("same-output-as-constant-before-it(kind %d)", ki), func(m *mb.Model) {
+				m.Nodes = append([]mb.Node{{Op: nm, In: []string{"x"}, Out: []string{"c"}}, kn}, m.Nodes...)
+			})
+			ctx(fmt.Sprintf("same-output-as-constant-consumed(kind %d)", ki), func(m *mb.Model) {
+				m.Nodes = append([]mb.Node{kn, {Op: nm, In: []string{"c"}, Out: []string{"c"}}}, m.Nodes...)
+			})
+		}
 		ctx("same-output-as-initializer", func(m *mb.Model) {
 			m.Nodes = append([]mb.Node{{Op: nm, In: []string{"x"}, Out: []string{"W"}}}, m.Nodes...)
 		})
